@@ -61,7 +61,12 @@ def write(prop, tier, seed, reports, harness_errors, nondet, wall, n_viol, known
         for k in ("c06_ongrid_rows", "c08_agents_in_memo", "c04_seam_rows_checked", "c04_seam_calls"):
             _acc(probes, k, s.get(k, 0) or 0)
         for k, v in (s.get("c04") or {}).items():
-            if k == "min_p_log10":
+            if k == "session_dispersion_ratio":
+                c04["min_session_dispersion_ratio"] = min(c04.get("min_session_dispersion_ratio", 9.9), v)
+                c04["max_session_dispersion_ratio"] = max(c04.get("max_session_dispersion_ratio", 0.0), v)
+            elif k == "min_dispersion_ratio":
+                c04[k] = min(c04.get(k, 9.9), v)  # smallest Pearson statistic / degrees of freedom of any panel (about 1 expected)
+            elif k == "min_p_log10":
                 c04[k] = min(c04.get(k, 0.0), v)  # the smallest p-value of any run, not a sum
             elif isinstance(v, (int, float)):
                 _acc(c04, k, v)
